@@ -17,11 +17,17 @@ import (
 // Real Sierra class definitions (file name = network-assigned class hash): the hash must
 // recompute from the wire content through the adapter, and every content tamper applied to
 // the WIRE object (before adaptation, as a hostile feeder would) must fail VerifyClassHashes.
-func classFixtures(r *lib.Run, caseBase int) {
+type classItem struct {
+	file, name string
+	def        *starknet.SierraClass
+	want       *felt.Felt
+}
+
+func planClasses() []classItem {
 	files, _ := filepath.Glob(filepath.Join(fixtureRoot, "*", "class", "0x*.json"))
 	sort.Strings(files)
 	seen := map[string]bool{}
-	n := 0
+	var out []classItem
 	for _, f := range files {
 		name := strings.TrimSuffix(filepath.Base(f), ".json")
 		if seen[name] {
@@ -36,81 +42,84 @@ func classFixtures(r *lib.Run, caseBase int) {
 		if err != nil {
 			continue
 		}
-		idx := caseBase + n
-		n++
-		if r.Skip(idx) {
-			continue
-		}
-		rel := strings.TrimPrefix(f, fixtureRoot+"/")
-		// Some checked-in class files no longer match the hash in their file name (the
-		// repository's own tests say so): the name is ground truth only where it matches; the
-		// tampers are judged against the hash the untampered content produces.
-		base, err := sn2core.AdaptSierraClass(def.Sierra, nil)
+		out = append(out, classItem{file: f, name: name, def: def.Sierra, want: want})
+	}
+	return out
+}
+
+func classCase(r *lib.Run, idx int, it classItem) {
+	rel := strings.TrimPrefix(it.file, fixtureRoot+"/")
+	// Some checked-in class files no longer match the hash in their file name (the
+	// repository's own tests say so): the name is ground truth only where it matches; the
+	// tampers are judged against the hash the untampered content produces.
+	base, err := sn2core.AdaptSierraClass(it.def, nil)
+	if err != nil {
+		r.Inconclusive("class-fixture-not-adaptable")
+		return
+	}
+	h0, err := base.Hash()
+	if err != nil {
+		r.Inconclusive("class-fixture-not-hashable")
+		return
+	}
+	check := func(w *starknet.SierraClass) error {
+		c, err := sn2core.AdaptSierraClass(w, nil)
 		if err != nil {
+			return err
+		}
+		return core.VerifyClassHashes(map[felt.Felt]core.ClassDefinition{h0: c})
+	}
+	r.Eval(1)
+	r.Count("real_sierra_classes", 1)
+	if h0.Equal(it.want) {
+		r.Count("real_sierra_class_hashes_matching_network_assigned_hash", 1)
+	} else {
+		r.Count("real_sierra_class_files_not_matching_their_file_name(test-data drift)", 1)
+	}
+	if err := check(it.def); err != nil {
+		r.Violation("class-hash-not-reproducible", idx, fmt.Sprintf("Sierra class %s does not verify under its own computed hash: %v", rel, err),
+			witness{Subject: rel, Expected: "class verifies under the hash computed from it", Observed: errStr(err)})
+		return
+	}
+	r.Case("class-positive|" + it.name)
+	type ct struct {
+		op string
+		ok bool
+		fn func(w *starknet.SierraClass)
+	}
+	src := it.def
+	ext := len(src.EntryPoints.External) > 0
+	ops := []ct{
+		{"class/sierra(wire)/program/change-last", len(src.Program) > 0, func(w *starknet.SierraClass) { w.Program[len(w.Program)-1] = incV(w.Program[len(w.Program)-1]) }},
+		{"class/sierra(wire)/program/change-middle", len(src.Program) > 8, func(w *starknet.SierraClass) { w.Program[len(w.Program)/2] = incV(w.Program[len(w.Program)/2]) }},
+		{"class/sierra(wire)/program/append", true, func(w *starknet.SierraClass) { w.Program = append(w.Program, *one()) }},
+		{"class/sierra(wire)/program/drop-last", len(src.Program) > 4, func(w *starknet.SierraClass) { w.Program = w.Program[:len(w.Program)-1] }},
+		{"class/sierra(wire)/abi", true, func(w *starknet.SierraClass) { w.Abi += " " }},
+		{"class/sierra(wire)/contract_class_version", true, func(w *starknet.SierraClass) { w.Version += "1" }},
+		{"class/sierra(wire)/entry_point/selector", ext, func(w *starknet.SierraClass) {
+			w.EntryPoints.External[0].Selector = inc(w.EntryPoints.External[0].Selector)
+		}},
+		{"class/sierra(wire)/entry_point/function_idx", ext, func(w *starknet.SierraClass) { w.EntryPoints.External[0].Index++ }},
+		{"class/sierra(wire)/entry_point/drop", ext, func(w *starknet.SierraClass) { w.EntryPoints.External = w.EntryPoints.External[1:] }},
+		{"class/sierra(wire)/entry_point/move-external-to-l1_handler", ext, func(w *starknet.SierraClass) {
+			w.EntryPoints.L1Handler = append(w.EntryPoints.L1Handler, w.EntryPoints.External[0])
+			w.EntryPoints.External = w.EntryPoints.External[1:]
+		}},
+	}
+	for _, o := range ops {
+		if !o.ok {
 			continue
 		}
-		h0, err := base.Hash()
-		if err != nil {
-			continue
-		}
-		check := func(w *starknet.SierraClass) error {
-			c, err := sn2core.AdaptSierraClass(w, nil)
-			if err != nil {
-				return err
-			}
-			return core.VerifyClassHashes(map[felt.Felt]core.ClassDefinition{h0: c})
-		}
+		w := chain.DeepCopy(src)
+		o.fn(w)
+		err := check(w)
 		r.Eval(1)
-		r.Count("real_sierra_classes", 1)
-		if h0.Equal(want) {
-			r.Count("real_sierra_class_hashes_matching_network_assigned_hash", 1)
-		} else {
-			r.Count("real_sierra_class_files_not_matching_their_file_name(test-data drift)", 1)
-		}
-		if err := check(def.Sierra); err != nil {
-			r.Violation("class-hash-not-reproducible", idx, fmt.Sprintf("Sierra class %s does not verify under its own computed hash: %v", rel, err),
-				witness{Subject: rel, Expected: "class verifies under the hash computed from it", Observed: errStr(err)})
-			continue
-		}
-		r.Case("class-positive|" + name)
-		type ct struct {
-			op string
-			ok bool
-			fn func(w *starknet.SierraClass)
-		}
-		src := def.Sierra
-		ops := []ct{
-			{"class/sierra(wire)/program/change-last", len(src.Program) > 0, func(w *starknet.SierraClass) { w.Program[len(w.Program)-1] = incV(w.Program[len(w.Program)-1]) }},
-			{"class/sierra(wire)/program/change-middle", len(src.Program) > 8, func(w *starknet.SierraClass) { w.Program[len(w.Program)/2] = incV(w.Program[len(w.Program)/2]) }},
-			{"class/sierra(wire)/program/append", true, func(w *starknet.SierraClass) { w.Program = append(w.Program, *one()) }},
-			{"class/sierra(wire)/program/drop-last", len(src.Program) > 4, func(w *starknet.SierraClass) { w.Program = w.Program[:len(w.Program)-1] }},
-			{"class/sierra(wire)/abi", true, func(w *starknet.SierraClass) { w.Abi += " " }},
-			{"class/sierra(wire)/contract_class_version", true, func(w *starknet.SierraClass) { w.Version += "1" }},
-			{"class/sierra(wire)/entry_point/selector", len(src.EntryPoints.External) > 0, func(w *starknet.SierraClass) {
-				w.EntryPoints.External[0].Selector = inc(w.EntryPoints.External[0].Selector)
-			}},
-			{"class/sierra(wire)/entry_point/function_idx", len(src.EntryPoints.External) > 0, func(w *starknet.SierraClass) { w.EntryPoints.External[0].Index++ }},
-			{"class/sierra(wire)/entry_point/drop", len(src.EntryPoints.External) > 0, func(w *starknet.SierraClass) { w.EntryPoints.External = w.EntryPoints.External[1:] }},
-			{"class/sierra(wire)/entry_point/move-external-to-l1_handler", len(src.EntryPoints.External) > 0, func(w *starknet.SierraClass) {
-				w.EntryPoints.L1Handler = append(w.EntryPoints.L1Handler, w.EntryPoints.External[0])
-				w.EntryPoints.External = w.EntryPoints.External[1:]
-			}},
-		}
-		for _, o := range ops {
-			if !o.ok {
-				continue
-			}
-			w := chain.DeepCopy(src)
-			o.fn(w)
-			err := check(w)
-			r.Eval(1)
-			r.Count("attempts", 1)
-			r.Count("op:"+o.op, 1)
-			r.Case("class|" + name + "|" + o.op)
-			if err == nil {
-				r.Violation("tamper-accepted:"+o.op, idx, fmt.Sprintf("real Sierra class %s tampered with %s still verifies under its hash", rel, o.op),
-					witness{Subject: rel, Op: o.op, Expected: "VerifyClassHashes fails", Observed: "verified"})
-			}
+		r.Count("attempts", 1)
+		r.Count("op:"+o.op, 1)
+		r.Case("class|" + it.name + "|" + o.op)
+		if err == nil {
+			r.Violation("tamper-accepted:"+o.op, idx, fmt.Sprintf("real Sierra class %s tampered with %s still verifies under its hash", rel, o.op),
+				witness{Subject: rel, Op: o.op, Expected: "VerifyClassHashes fails", Observed: "verified"})
 		}
 	}
 }
